@@ -116,7 +116,8 @@ func TestVerifC10Round(t *testing.T) {
 		h.End()
 	}
 	h.Close("histories of 1-3 rounds of suppressBECPU on one agent object and one cgroup tree: environment as in the cpuset cases (topology, " +
-		"pods with cpuset annotations and lifecycle states, reserved / system-QoS cpus, kubelet policy), per round a fresh budget input " +
+		"pods with cpuset annotations and lifecycle states, reserved / system-QoS cpus, kubelet policy; every third history one cell of the product " +
+		"{reservation shape} x {system-QoS shape} incl. cpu lists rejected by cpuset.Parse, see the suppress harness), per round a fresh budget input " +
 		"(as in the budget cases, metrics through the metric-cache querier), NodeSLO nil / without enable / disabled / enabled, mode cpuset or " +
 		"cfsQuota (switching between rounds), steady rounds (same node, usage drifting <= 1/4 CPU: 1 % bypass band), node nil, empty pod list, node metric or " +
 		"NodeCPUInfo missing; non-trivial = a round that acts and changes a file")
@@ -126,6 +127,9 @@ func c10CaseRound(t *testing.T, h *vHarness, r *vRand, cg *c10Cgroup, beDir stri
 	cs := c10GenCPUSet(r)
 	if len(cs.ps) == 0 || r.Chance(9, 10) {
 		cs.topoNil = false
+	}
+	if idx%3 == 0 { // systematic stream: every cell of {reservation shape} x {system-QoS shape}, suppress and recover rounds
+		c10ApplyAnnoCell(h, r, cs, idx/3)
 	}
 	envTok := cs.envTokens(h)
 	csNoPods := *cs // the same node when the informer reports no pod at all
